@@ -85,6 +85,8 @@ H("fastrace", "local::span_queue", "sq_step_finish_from_any_state", ["C10", "C18
   sym="two recorded spans with arbitrary ids/parents/instants, which one is finished, clock", bound="one finish_span from an arbitrary queue state satisfying its precondition", models=SQM)
 H("fastrace", "local::span_queue", "sq_attach_under_innermost", ["C06", "C18"],
   sym="id generator state, clock", bound="fixed sequence: event / properties at depth 0,1,2 and after a child finished; 6 records", models=SQM)
+H("fastrace", "local::span_queue", "sq_attach_after_child_finished", ["C06"],
+  sym="id generator state, clock", bound="fixed sequence: child's own property, child finishes, a property for the parent with nothing recorded in between; 4 records", models=SQM, mem_gb=24, cap_s=1200)
 H("fastrace", "local::span_queue", "sq_with_properties_hits_handle", ["C06"], tier="thorough", mem_gb=20,
   sym="which of the two open spans the handle denotes", bound="two open spans, one with_properties call on a symbolic choice of them", models=SQM)
 for _c in (1, 2):
@@ -166,6 +168,10 @@ for n, props, sym in [
 CM = ("kani", "fmt", "memchr")
 H("fastrace", "collector::id", "c12_encode_shape", ["C12"], sym="trace id (128 bits), span id (64), sampled, hex position", bound="all 2^193 contexts", models=CM, unwind=None, cap_s=1500, mem_gb=16)
 H("fastrace", "collector::id", "c12_decode_ascii_le4", ["C12"], sym="every ASCII string of length <= 4", bound="input length <= 4", models=CM)
+H("fastrace", "collector::id", "c12_decode_flags1", ["C12"], sym="a flags field of 1 arbitrary ASCII byte(s) ('-' included) after 00-a-b- (and the empty field)", bound="8-byte header, 1 symbolic byte(s)", models=CM, cap_s=1200, mem_gb=16)
+H("fastrace", "collector::id", "c12_decode_flags2", ["C12"], sym="a flags field of 2 arbitrary ASCII byte(s) ('-' included) after 00-a-b-", bound="9-byte header, 2 symbolic byte(s)", models=CM, cap_s=1200, mem_gb=16)
+H("fastrace", "collector::id", "c12_decode_flags3", ["C12"], sym="a flags field of 3 arbitrary ASCII byte(s) ('-' included) after 00-a-b-", bound="10-byte header, 3 symbolic byte(s)", models=CM, cap_s=1200, mem_gb=16)
+H("fastrace", "collector::id", "c12_decode_version2", ["C12"], sym="the two bytes of the version field of VW-a-b-01 (any ASCII, '-' included)", bound="9-byte header, 2 symbolic bytes", models=CM, cap_s=1200, mem_gb=16)
 H("fastrace", "collector::id", "c12_decode_fields_112", ["C12"], sym="00-H-H-HH with 4 arbitrary ASCII bytes", bound="field lengths 1,1,2", models=CM, cap_s=2400, mem_gb=16, tier="thorough")
 H("fastrace", "collector::id", "c12_decode_fields_222", ["C12"], sym="00-HH-HH-HH with 6 arbitrary ASCII bytes", bound="field lengths 2,2,2", models=CM, cap_s=2400, mem_gb=30, tier="thorough")
 H("fastrace", "collector::id", "c12_decode_one_corrupted_byte", ["C12"], sym="position 0..23 and replacement byte (any ASCII) in a valid 24-byte header with a 17-digit trace id", bound="one corrupted byte in one fixed valid header", models=CM, cap_s=3000, mem_gb=24, tier="thorough")
@@ -186,9 +192,9 @@ for n, props, sym, kw in [
 
 # ---------------------------------------------------------------- Stream / Sink adapters (C14)
 for n, props, sym, kw in [
-    ("fs_stream_item_poll", ["C14"], "span id, token fields", dict(mem_gb=20, cap_s=1500)),
+    ("fs_stream_item_poll", ["C14"], "span id, token fields, inner stream Pending or Ready(Some)", dict(mem_gb=20, cap_s=1500)),
     ("fs_stream_end_root", ["C14"], "span id, collect id, token fields", dict(mem_gb=24, cap_s=1800, flags=NOCHK + ["--no-overflow-checks"])),
-    ("fs_sink_send_calls", ["C14"], "span id, which of poll_ready/start_send/poll_flush", dict(mem_gb=24, cap_s=1800)),
+    ("fs_sink_send_calls", ["C14"], "span id, which of poll_ready/start_send/poll_flush, inner result Ready(Ok)/Ready(Err)/Pending", dict(mem_gb=24, cap_s=1800)),
     ("fs_sink_close_root", ["C14"], "span id, close Pending or Ready", dict(mem_gb=24, cap_s=1800, flags=NOCHK + ["--no-overflow-checks"])),
     ("fs_noop", ["C14", "C16"], "none", {}),
 ]:
@@ -213,9 +219,17 @@ for n, sym in [
 ]:
     H("harness-disabled", "disabled", n, ["C16"], sym=sym, bound="every public entry point once, build without the `enable` feature", models=("kani", "ring", "rand"))
 
+# ---------------------------------------------------------------- enabled build, non-recording spans, public API (C16)
+for n, sym in [
+    ("noop_span_routes_lazy", "how the non-recording span is obtained (root before a reporter is installed, any context / Span::noop())"),
+    ("noop_local_parent_child_lazy", "none"),
+    ("noop_local_routes_lazy", "none"),
+]:
+    H("harness-crate", "noop", n, ["C16"], sym=sym, bound="every closure-taking public entry point once on a non-recording span, counting closures", models=SPM, mem_gb=16)
+
 # ---------------------------------------------------------------- Jaeger splitter (C20)
 JM = ("kani", "oracle-jaeger")
-for n, tier in [(2, "quick"), (3, "quick"), (4, "thorough"), (5, "quick")]:
+for n, tier in [(2, "quick"), (3, "quick"), (4, "thorough"), (5, "quick"), (6, "thorough"), (7, "quick"), (8, "quick")]:
     H("fastrace-jaeger", "", f"jg_splitter_n{n}", ["C20"], sym=f"per-span encoded sizes w[0..{n}) each in 1..=9000", bound=f"batch of {n} spans, every size distribution",
       models=JM, termination=True, tier=tier, cap_s=1800, mem_gb=20, oracle_stubs=True)
 
@@ -243,15 +257,15 @@ PROPS = {
     "C09": dict(bounds=QB + "; SpanQueue capacity <= 3, span stack capacity <= 2", not_covered=[COLLECTOR_OUT, "the production capacities 10240/4096 (the code only compares lengths with the stored capacity)"]),
     "C10": dict(bounds="depth <= 2 scopes, <= 5 spans per scope, <= 3 stack operations per harness; deeper nesting by stack-top-locality (on paper)", not_covered=["!Send of guards is a compiler fact", "arbitrary-depth programs (induction on paper)"]),
     "C11": dict(bounds="tokens of 1..2 items, all id values", not_covered=[COLLECTOR_OUT, "the remote child's delivered record"]),
-    "C12": dict(bounds="encode: all 2^193 contexts; decode: all ASCII strings up to L bytes and field-shaped inputs with fields <= 3 chars", not_covered=["decoding of longer fields / the full 55-character string (uniformity of str::split and from_str_radix is std's contract)", "serde"]),
+    "C12": dict(bounds="encode: all 2^193 contexts; decode: all ASCII strings up to 4 bytes, every flags field of 0..3 bytes and every 2-byte version field of a short header, and (thorough) field-shaped inputs with fields <= 2 chars / single-byte corruptions of a 24-byte header", not_covered=["decoding of longer fields / the full 55-character string (uniformity of str::split and from_str_radix is std's contract)", "serde"]),
     "C13": dict(bounds="<= 2 polls per harness, one adapter", not_covered=[COLLECTOR_OUT, "more than 2 polls, nesting of adapters"]),
-    "C14": dict(bounds="<= 2 calls per harness", not_covered=[COLLECTOR_OUT]),
+    "C14": dict(bounds="one adapter call per harness (<= 2 calls), every result of the inner stream/sink (Pending / Ready(Some) / Ready(None); Ready(Ok) / Ready(Err) / Pending)", not_covered=[COLLECTOR_OUT]),
     "C15": dict(bounds="a fixed corpus of annotated function shapes, all argument values (u8/bool/Option<u8>)", not_covered=["functions outside the corpus (the proc-macro itself is not executed by the engine)", "drop order of unused by-value arguments"]),
     "C16": dict(bounds="every public entry point once, closures flagged", not_covered=["'no thread' (threads are not modelled)", "set_reporter / flush are never executed"]),
     "C17": dict(bounds="sets of <= 2 local spans, 1..2 parents", not_covered=[COLLECTOR_OUT, "to_span_records vs the collector path end to end"]),
     "C18": dict(bounds="fixed shapes, every clock step 0..255 per reading, clock start < 2^62", not_covered=["wall-clock window", "the float cycle->ns scaling of fastant", "one anchor per collector cycle"]),
     "C19": dict(bounds="one record, symbolic integer fields", not_covered=["wire bytes (thrift_codec, rmp-serde, OTel SDK)", "strings"]),
-    "C20": dict(bounds="batches of <= 4 spans, every size vector in 1..=9000 per span", not_covered=["additivity of the real encoder's length (oracle assumption)", "send_to errors"]),
+    "C20": dict(bounds="batches of 2..8 spans (quick: 2, 3, 5, 7, 8; thorough adds 4, 6), every size vector in 1..=9000 per span", not_covered=["additivity of the real encoder's length (oracle assumption)", "send_to errors"]),
 }
 for _p, _d in PROPS.items():
     _d.setdefault("design_ref", f"DESIGN.md §5 {_p}")
